@@ -109,6 +109,9 @@ ClassifyC04(rec) ==
     [] rec.kind = "foreign" ->    \* a write of another Kopf-based operator must not change this operator's essence
          IF JEq(rec.before, rec.after) THEN "ok"
          ELSE IF rec.unmarked_kopf_prefix THEN "F19" ELSE "foreign_kopf_write_visible"
+    [] rec.kind = "echo" ->       \* the echo of the own last-handled write: the stored state is there and equals the essence of the object
+         IF ~rec.hasold THEN "stored_last_handled_state_is_not_found"
+         ELSE IF JEq(rec.old, rec.new) THEN "ok" ELSE "own_last_handled_write_is_seen_as_a_change"
     [] rec.kind = "visible" ->    \* any other change must count
          IF ~JEq(rec.before, rec.after) THEN "ok" ELSE "essential_change_invisible"
     [] rec.kind = "essence" ->    \* the implementation's essence equals the reference
